@@ -29,6 +29,12 @@ Chk(prop, name, c) ==
   \* IF (not \/): inside an action TLC would explore both disjuncts and overwrite the register
   IF prop \notin Active THEN TRUE ELSE IF (TLCSet(8, "-") /\ c) THEN TRUE ELSE (TLCSet(7, <<prop, name>>) /\ FALSE)
 Sub(name, c) == IF c THEN TRUE ELSE (TLCSet(8, name) /\ FALSE)     \* which conjunct failed
+(* A predicate whose violation is RECORDED (register 10: property, predicate, line, instruction) and does not stop the
+   validation of the rest of the trace: used where the unchanged program is known to contradict the letter of a property
+   (known_findings.json decides, in the runner, whether a recorded hit is a listed finding or a violation).        *)
+Soft(prop, name, ixname, c) ==
+  IF prop \notin Active \/ c THEN TRUE
+  ELSE TLCSet(10, Append(TLCGet(10), [prop |-> prop, pred |-> name, line |-> l, ix |-> ixname]))
 SeqSet(s) == {s[i] : i \in DOMAIN s}
 BSum(S, f(_)) == FoldSet(LAMBDA x, acc : acc ++ f(x), 0, S)
 SeqSum(s, f(_)) == FoldLeft(LAMBDA acc, x : acc ++ f(x), 0, s)
@@ -1346,6 +1352,12 @@ IxOK(pre, e, post) ==
   /\ Chk("C04", "authorised", Guard(pre, e))
   /\ Chk("C04", "setter_effect", SetterEffect(pre, e, post))
   /\ Chk("C15", "accounts_belong", Guard(pre, e))
+  \* reposition of a position WITHOUT liquidity: the old range's tick-array slots are not used - and not looked at - by the
+  \* program; a tick array of ANOTHER pool supplied there is accepted (recorded, see known_findings.json)
+  /\ IF e.name = "reposition_liquidity_v2" /\ Id(e, "position") \in DOMAIN pre.pos /\ pre.pos[Id(e, "position")].liq \doteq 0
+     THEN Soft("C15", "unused_old_range_arrays_belong", e.name,
+               \A sl \in {"existing_tick_array_lower", "existing_tick_array_upper"} : NotForeignArray(pre, Id(e, sl), Id(e, "whirlpool")))
+     ELSE TRUE
   /\ Chk("C12", "anchor_equals_pinocchio", DualOK(e))
   /\ Chk("C12", "entrypoint_routing", e.routing \in {"none", "same"})
   /\ Chk("C13", "tick_array_encoding", C13State(post))
@@ -1390,15 +1402,24 @@ IxOK(pre, e, post) ==
      THEN Chk("C08", "decrease_amounts", NoTransferFee(pre, pre.pos[APos(e)].pool) => C08Modify(pre, e, post, FALSE))
      ELSE TRUE
 
+(* C20, last clause, at the level of the SDK's user-facing quote: where the program refuses a swap for a reason that lies
+   in the pool / tick-array / oracle state, the SDK may produce a number only for a partial exact-out fill (6057) or for
+   running off the supplied tick arrays (6038 / 6023).  Refusals that depend on what the quote is not given - the caller's
+   slippage threshold (6036 / 6037) or the trader's token balance (token-program error 1) - do not count.          *)
+C20UserQuoteOnRefusal(e) ==
+  (IsSwapName(e.name) /\ e.sdkUser.present /\ e.sdkUser.ok) =>
+     (e.err \doteq 6057 \/ e.err \doteq 6038 \/ e.err \doteq 6023 \/ e.err \doteq 6036 \/ e.err \doteq 6037 \/ e.err \doteq 1)
+
 IxFailed(pre, e) ==
   /\ Chk("C20", "sdk_quote_on_failure", C20Quote(e))
+  /\ Chk("C20", "sdk_user_level_quote_on_refusal", C20UserQuoteOnRefusal(e))
   /\ Chk("C10", "packaging_failed", C10Pack(pre, e))
   /\ Chk("C12", "anchor_equals_pinocchio_on_failure", DualOK(e))
   /\ Chk("C12", "entrypoint_routing_on_failure", e.routing \in {"none", "same"})
   /\ Chk("ANY", "must_succeed", ~e.must)
   /\ Chk("ANY", "atomic", EmptyDiff(e.diff))
 
-Init == l = 1 /\ st = [now |-> 0] /\ gh = [seg |-> <<>>, led |-> <<>>, rled |-> <<>>] /\ TLCSet(7, <<"none", "none">>) /\ TLCSet(8, "none") /\ TLCSet(9, <<>>)
+Init == l = 1 /\ st = [now |-> 0] /\ gh = [seg |-> <<>>, led |-> <<>>, rled |-> <<>>] /\ TLCSet(7, <<"none", "none">>) /\ TLCSet(8, "none") /\ TLCSet(9, <<>>) /\ TLCSet(10, <<>>)
 
 Next ==
   /\ l <= Len(Rec)
@@ -1445,7 +1466,8 @@ Spec == Init /\ [][Next]_vars
 
 Accepted ==
   LET d == TLCGet("stats").diameter IN
-  IF d - 1 = Len(Rec) THEN ("COV" \in Active => PrintT(<<"SITUATIONS", ToJson(TLCGet(9))>>))
+  IF d - 1 = Len(Rec) THEN /\ ("COV" \in Active => PrintT(<<"SITUATIONS", ToJson(TLCGet(9))>>))
+                           /\ (TLCGet(10) # <<>> => PrintT(<<"RECORDED", ToJson(TLCGet(10))>>))
   ELSE /\ PrintT(<<"REJECTED", d, TLCGet(7)[1], TLCGet(7)[2], TLCGet(8)>>)
        /\ FALSE
 =============================================================================
